@@ -87,6 +87,32 @@ func Run(tier string) int {
 			}
 		}
 	}
+	// a literal head, a repetition, a tail whose alternatives differ in length: head rep tail, the shape of
+	// "token=[a-z]*={0,2}" and "ab\r[^\n]*(?:\n|\r\n)" (nine to fourteen AST nodes).  What the walks know about
+	// the bytes in front of a repetition meets what they know about the end of the expression.
+	repTailFamily := 0
+	{
+		seen := map[string]bool{}
+		for _, r := range regexes {
+			seen[r] = true
+		}
+		heads := []string{"", "a", "b", "ab", "ba", "aa", "aba", "bab", "A"}
+		reps := []string{"a*", "b*", "a+", "b+", "[ab]*", "[ab]+", "a*?", "b+?", "(?:ab)*", "(?:a|b)+", ".*", "a?"}
+		tails := []string{"", "a", "b", "a?", "b?", "(?:a|)", "(?:|b)", "(?:b|ab)", "(?:a|ba)", "(?:b|bb)", "(?:ab|b)",
+			"b{0,2}", "a{0,2}", "(?:ab)?", "(?:ba)?", "(?:ab)??", "(?:a|b)", "(?:a|b)?", "$", "(?:b|$)"}
+		for _, head := range heads {
+			for _, rp := range reps {
+				for _, tail := range tails {
+					rx := head + rp + tail
+					if !seen[rx] {
+						seen[rx] = true
+						regexes = append(regexes, rx)
+						repTailFamily++
+					}
+				}
+			}
+		}
+	}
 	// the bodies of the counted-repetition family are judged by exhaustive matching like every other expression
 	{
 		seen := map[string]bool{}
@@ -213,6 +239,7 @@ func Run(tier string) int {
 	c["regex_texts_rejected_by_parser"] = rejected
 	c["regexes_literal_words_in_context"] = wordFamily
 	c["regexes_tiny_grammar"] = tinyFamily
+	c["regexes_head_repetition_tail"] = repTailFamily
 	c["regexes_high_byte_literals"] = highFamily
 	c["tiny_grammar_size"] = tinySize
 	c["spans_checked"] = spansChecked
